@@ -141,6 +141,13 @@ fn run(case: &HashMap<String, String>) -> String {
                 let _ = h.finish();
                 let _ = rr.match_qtype(crate::QTYPE::MAILB);
                 let _ = rr.match_qclass(crate::QCLASS::ANY);
+                // name observers
+                let _ = rr.name.is_link_local();
+                let _ = rr.name.is_subdomain_of(&rr.name);
+                let _ = rr.name.without(&rr.name);
+                let _ = rr.name.get_labels().len();
+                let _ = rr.name.iter().count();
+                let _ = rr.name.len();
                 if let crate::rdata::RData::TXT(txt) = &rr.rdata {
                     let _ = txt.attributes();
                     let _ = txt.clone().long_attributes();
